@@ -12,6 +12,7 @@ ASSUMPTIONS = {
     'A-path': 'A-path: at emission the block stack holds the same sequence ids in the same order as the parse-time control stack did',
     'A-ext': 'A-ext: user code behind dyn CustomSection / on_parse / on_instr_loc / builder closures satisfies the contract written on the trait method or closure parameter',
     'A-extract': 'A-extract: the text verified is copied from /repo on every run by tools/gen.py; rules R1 (log/error-message macros), R2 (visibility, attributes dropped), R6 (contracts inserted, return value named) are the only edits; panic sites are modelled by the stated mode',
+    'A-tree': 'A-tree: the instruction sequences of a function form a finite tree: no sequence is nested (transitively) in itself (a rank function exists); otherwise dfs_in_order would not terminate and the function could not be emitted',
     'A-verus': 'A-verus: soundness of Verus 0.2026.09.13 / Z3 and of vstd',
 }
 
@@ -25,18 +26,19 @@ UNITS = {
     'unitN': {'spec': 'unitN.vrs'},
     'unitH': {'spec': 'unitH.vrs'},
     'unitK': {'spec': 'unitK.vrs'},
+    'unitT': {'spec': 'unitT.vrs', 'expanded': True},
     'unitF': {'spec': 'unitF.vrs', 'expanded': True, 'threads': 8},
     'unitC': {'spec': 'unitC.vrs', 'expanded': True, 'threads': 16, 'timeout': 2400},
 }
 
 PROPS = {
     'C01': {
-        'units': ['unitC', 'unitD', 'unitB', 'unitI'],
-        'obligations': ['C.', 'D.', 'B.', 'I.emit_wasm'],
+        'units': ['unitC', 'unitD', 'unitB', 'unitI', 'unitT'],
+        'obligations': ['C.', 'D.', 'B.', 'I.emit_wasm', 'T.'],
         'assumptions': ['A-sem', 'A-deps', 'A-arena', 'A-std', 'A-iter', 'A-float', 'A-arith', 'A-path', 'A-limits', 'A-extract', 'A-verus'],
         'rules': 'as C03, C04, C19 and C08 (units C, D, B, I)',
         'claimed': [
-            'composite: behavioural equivalence is decomposed (DESIGN.md section 6, C01) into (a) every operator is re-emitted as the same operator on the renumbered entities (C03, unit C: 526 operator arms, control arms, memarg), (b) every entity keeps its attributes and initialisers (C04, unit D), (c) the two index maps are consistent bijections per index space (C19, unit B), (d) sections are emitted in dependency order over the unchanged module (C08/C12, unit I); observational equivalence then follows from A-sem (renumbering, dead-code and nop elision are unobservable)',
+            'composite: behavioural equivalence is decomposed (DESIGN.md section 6, C01) into (a) every operator is re-emitted as the same operator on the renumbered entities (C03, unit C: 526 operator arms, control arms, memarg), (b) every entity keeps its attributes and initialisers (C04, unit D), (c) the two index maps are consistent bijections per index space (C19, unit B), (c') the emitter is driven through the in-order flattening of each body (unit T), (d) sections are emitted in dependency order over the unchanged module (C08/C12, unit I); observational equivalence then follows from A-sem (renumbering, dead-code and nop elision are unobservable)',
         ],
         'unclaimed': [
             'the execution semantics itself (A-sem) -- no interpreter is available in this sandbox, behaviour is compared structurally up to renumbering',
@@ -174,8 +176,8 @@ PROPS = {
         ],
     },
     'C15': {
-        'units': ['unitJ'],
-        'obligations': ['J.ir.', 'J.fb.', 'J.sb.', 'J.gen.', 'J.lf.', 'C.ir.from.'],
+        'units': ['unitJ', 'unitT'],
+        'obligations': ['J.ir.', 'J.fb.', 'J.sb.', 'J.gen.', 'J.lf.', 'C.ir.from.', 'T.'],
         'assumptions': ['A-arena', 'A-std', 'A-ext', 'A-extract', 'A-verus'],
         'rules': 'R1 (Vec::insert index check modelled as divergence, absent mode) R2 R6 (implgen, closurespec) R10 (`f(&mut builder)` ==> call_seq_fn(f, &mut builder): user closure by assumed contract `api_step` + uninterpreted effect); panic mode: absent',
         'claimed': [
@@ -183,9 +185,10 @@ PROPS = {
             'every per-instruction builder method generated by #[walrus_instr] (96 methods, rustc expansion): `<snake(V)>(fields)` appends exactly Instr::V(V{fields}) and `<snake(V)>_at(position, fields)` inserts it -- variant and field list taken from the UNEXPANDED enum in src/ir/mod.rs',
             'block / block_at / loop_ / loop_at / if_else / if_else_at (real): a fresh dangling sequence of the requested type per arm (consequent before alternative), the closures run on them in order, then Block / Loop / IfElse naming exactly those sequences is appended / inserted',
             'FunctionBuilder::new / without_entry / func_body / func_body_id / instr_seq / dangling_instr_seq, InstrSeq::new, LocalFunction::new, FunctionBuilder::local_func / finish; i32_const .. f64_const; all From<V> for Instr and From<..> for InstrSeqType conversions',
+            'emission order (unit T): the traversal that drives the emitter yields exactly the in-order flattening of the built tree',
         ],
         'unclaimed': [
-            'emission of the built tree (dfs_in_order + Emit: unit C proves the per-instruction and block open/close steps for parsed and built functions alike, C03), branch depth computation (branch_target: iterator chain) and local slot assignment (emit_locals, unit G): bounded stand-in only',
+            'branch depth computation (branch_target: iterator chain), local slot assignment (emit_locals) and the composition traversal + Emit hooks (unit C proves the per-instruction and block open/close steps for parsed and built functions alike, C03): bounded stand-in only',
         ],
         'standins': [
             {'fn': 'builder -> emit end to end', 'argv': ['builder'], 'argv_thorough': ['builder', '2500'], 'bound_thorough': '2505 trees x 6 construction orders',
@@ -348,8 +351,9 @@ PROPS = {
         ],
     },
     'C16': {
-        'units': ['unitF'],
-        'assumptions': ['A-arena', 'A-ext', 'A-extract', 'A-verus'],
+        'units': ['unitF', 'unitT'],
+        'obligations': ['F.', 'T.'],
+        'assumptions': ['A-arena', 'A-ext', 'A-iter', 'A-tree', 'A-extract', 'A-verus'],
         'rules': 'R1 R2 R3 (Instr::visit_mut per arm) R6 R8 (trait default bodies verified in a sub-trait, trait itself as declarations+contracts); operands(x) generated from the field TYPES of the unexpanded enum Instr',
         'claimed': [
             'for every Instr variant: the generated Visit and VisitMut impls report exactly operands(x) -- the entity-id fields by type, in declaration order, each once -- to any visitor (observation log defined by the id-hook contracts)',
@@ -357,9 +361,10 @@ PROPS = {
             'default per-instruction hooks of Visitor and VisitorMut leave the log and the operands unchanged (F5 failed here before the fix)',
             'InstrSeq::visit / visit_mut: the sequence-level type operand, once, only for multi-value sequences',
             'no recursion among generated impls and hooks: Verus accepts the file without any `decreases` (it rejects recursion without one)',
+            'dfs_in_order (unit T, real text of both loop bodies; labelled continues mapped to return values, R4): one instruction step shows the visitor exactly that instruction and either goes on or schedules (resume point, alternative, consequent) and pauses; one iteration of the outer loop preserves  trace + todo(stack) == const ; lemma: with the stack starting at [(start, 0)] and ending empty the trace is exactly the in-order flattening -- Start, every instruction in order, every nested sequence in full right after its owner (consequent first), End -- each exactly once',
         ],
         'unclaimed': [
-            'dfs_in_order / dfs_pre_order_mut drivers (while-let + labelled continue + iterator adapters): not under contract; bounded stand-in only (order, nesting, exactly-once over all control-flow programs of the budget)',
+            'the composition of the two loops of dfs_in_order (`while let Some(..) = stack.pop()`, `for .. in iter().enumerate().skip(index)`: A-iter) and well-foundedness of sequence nesting (A-tree); dfs_pre_order_mut (for over &mut items): not under contract; bounded stand-ins',
             'actual call-stack usage at nesting depth 10^5 (only non-recursion is expressible)',
         ],
         'standins': [
@@ -375,7 +380,7 @@ PROPS = {
         ],
     },
     'C03': {
-        'units': ['unitC'],
+        'units': ['unitC', 'unitT'],
         'assumptions': ['A-deps', 'A-arena', 'A-std', 'A-iter', 'A-float', 'A-arith', 'A-path', 'A-extract', 'A-verus'],
         'rules': 'R1 R2 R3 (one obligation per match arm) R6 R7 (emit arms lifted to spec fns, exec arms re-verified against them); panic mode: absent',
         'claimed': [
@@ -383,9 +388,10 @@ PROPS = {
             'unreachable code and nop elision: nothing is appended in an unreachable frame, Nop appends nothing',
             'block structure: Block/Loop/If/Else/End create, close and attach sequences as the input nests them; sequence type denotes the block type signature; emit writes block/loop/if/else/end around sequences',
             'memarg: align round trip (log2 of 1<<a), 64-bit offset kept',
+            'instruction ORDER (unit T): dfs_in_order hands the emitter the in-order flattening of the tree the parser built (every instruction once, nested sequences right after their owner, consequent before alternative, start/end around every sequence)',
         ],
         'unclaimed': [
-            'order of instructions inside a body beyond the per-step contracts (needs the traversal theorem, unit F stretch)',
+            'composition of the per-step contracts into whole bodies: the traversal theorem (unit T) gives the order in which Emit sees instructions and sequence boundaries; that the emitter hooks are the ones unit C verifies is by name (A-iter for the two loops)',
             'BrTable parse arm (iterator over BrTableTargets) and Emit BrTable arm / branch_target (iterator adapter chains): assumed (A-iter), not verified',
             'block_param_tys / block_result_tys: assumed contract',
         ],
